@@ -11,6 +11,11 @@ NOTES = ("Contract-based deductive verification. Each check extracts the real fu
          "otherwise labelled bounded and not counted) discharge every obligation. Exit 2 = undecided (lost anchor / unsupported construct / solver limit), never an alarm.")
 
 CLAIMS = {
+    "C17": dict(
+        technique="Verus contract on the extracted require_authz decision fragment and the query endpoint's read-only guard; structural obligations (extractor-discharged) on router/middleware order and guard dominance",
+        text="Proof that the authorisation decision passes iff no token is configured or the header carries exactly the configured token, and rejects with 401 otherwise; structural obligations on the real builder chain that every .route() precedes the single authz layer and that the served app is that router; the non-readonly guard returns a client error before any statement execution and dominates every query call.",
+        note="Assumed: axum Router::layer semantics, header parsing, sqlite3_stmt_readonly. Subscription-endpoint SQL (Matcher) is not decided. Structural obligations are syntactic facts about the real text, reported as such.",
+    ),
     "C04": dict(
         technique="Verus contracts on anchored fragments of the real SyncStateV1::compute_available_needs (guards, Full-need loop with loop invariants, tail request), extracted each run",
         text="Unbounded proof (any number of ranges, all u64 versions) that the Full requests computed for an actor are exactly our gap ranges intersected with the peer's fully-held set (sound and complete), that nothing is requested for the node's own actor id or a zero head, and that the tail request is (our_head+1 ..= peer_head). The Partial-need branches and the construction of the peer-held set are not under contract.",
@@ -56,5 +61,4 @@ NOT_APPLICABLE = {
     "C10": "check not built yet in this round (planned: DESIGN.md §5/C10)",
     "C14": "check not built yet in this round (planned: DESIGN.md §5/C14)",
     "C16": "check not built yet in this round (planned: DESIGN.md §5/C16)",
-    "C17": "check not built yet in this round (planned: DESIGN.md §5/C17)",
 }
